@@ -34,7 +34,7 @@ var c18plain = [][2]string{
 	{"corp.example.com/secret-team", "$T"}, // a directory that is not an absolute path (module-relative names of -trimpath builds)
 	{"/srv/ci/app$nightly/w", "~work-tree-of-the-nightly-build"}, // a '$' in the directory name; a short form that is longer than the directory
 	{"/opt/secret", "$S2"}, // the same directory as the first entry under another short form: registering it again replaces the form
-	{"${CWD}", "~proj"}, // the directory the process was started in (the key of the built-in "." rule), under a name of the user's own
+	{"${CWD}", "~proj"},    // the directory the process was started in (the key of the built-in "." rule), under a name of the user's own
 }
 
 // the user's home directory and the working directory of the process as it started, asked from the operating system
@@ -62,6 +62,8 @@ func c18tablesReadable() bool {
 	}
 	return c18readable
 }
+
+var c18selfLoopPaths = []string{"${HOME}/a.go", "${CWD}/a.go", "/Volumes/V/p/a.go", "/opt/secret/deep/f.go", "/mnt/abc/q.go", "rel/a.go", "/srv/x/opt/secret/f.go", "/tmp/zz.go"}
 
 const c18badPattern = "/broken/([^/]+"
 
@@ -541,19 +543,31 @@ func c18run(c *Ctx) {
 		}
 		// every transition out of this state: the tables after the operation equal the model's
 		for _, o := range ops {
-			if !c18tablesReadable() {
-				break
-			}
 			hist := append(append([]c18op{}, nd.ops...), o)
 			tn := c18build(hist)
-			in := c18tables{plain: slog.VerifKnownPathMap(), re: slog.VerifKnownPathRegexps()}
-			if in.plain == nil {
-				in.plain = map[string]string{}
-			}
 			c.Count("transitions_replayed", 1)
-			if in.key() != tn.key() {
-				c.Violate(mkViolation("C18|table-semantics|"+o.String()+"|from="+c18symbolic(t.key()), "table-semantics",
-					fmt.Sprintf("after %s on tables %s the tables are %s, reference %s", o.String(), c18symbolic(t.key()), c18symbolic(in.key()), c18symbolic(tn.key())), c18case{Ops: hist, Via: "tables"}))
+			if c18tablesReadable() {
+				in := c18tables{plain: slog.VerifKnownPathMap(), re: slog.VerifKnownPathRegexps()}
+				if in.plain == nil {
+					in.plain = map[string]string{}
+				}
+				if in.key() != tn.key() {
+					c.Violate(mkViolation("C18|table-semantics|"+o.String()+"|from="+c18symbolic(t.key()), "table-semantics",
+						fmt.Sprintf("after %s on tables %s the tables are %s, reference %s", o.String(), c18symbolic(t.key()), c18symbolic(in.key()), c18symbolic(tn.key())), c18case{Ops: hist, Via: "tables"}))
+					continue
+				}
+			}
+			if tn.key() == t.key() {
+				// an operation that leaves the model where it is (removing what is not there, a pattern that does not compile, Reset())
+				// is no state of its own in the exploration: the lookups are asked right here, after the operation
+				for _, p := range c18selfLoopPaths {
+					cas := c18case{Ops: hist, Privacy: true, ReFlag: true, Path: p, Via: "Safety"}
+					c.Count("evaluations", 1)
+					if v := c18evalOne(cas, tn); v != nil {
+						c.Violate(v)
+						break
+					}
+				}
 			}
 		}
 		t = c18build(nd.ops)
